@@ -21,11 +21,18 @@ from collections import namedtuple
 sys.setrecursionlimit(10000)
 
 
-class U(namedtuple('U', 'ch')):
+class U(namedtuple('U', 'ch tag')):
+    """unknown value; `tag` is an optional symbolic origin (e.g. 'self.left') that
+    survives moves, copies, borrows and identity-modelled calls"""
     __slots__ = ()
 
     def __repr__(self):
-        return '?' if not self.ch else '?{%s}' % ','.join('%s:%r' % (k, v) for k, v in self.ch)
+        t = '?' + (self.tag or '')
+        return t if not self.ch else t + '{%s}' % ','.join('%s:%r' % (k, v) for k, v in self.ch)
+
+
+def sym(tag):
+    return U((), tag)
 
 
 I = namedtuple('I', 'n')
@@ -35,7 +42,7 @@ T = namedtuple('T', 'items')
 R = namedtuple('R', 'v')
 F = namedtuple('F', 'deff res ga')
 C = namedtuple('C', 'deff caps')
-TOP = U(())
+TOP = U((), None)
 
 STD_VARIANTS = {
     'core::option::Option': ['None', 'Some'],
@@ -86,6 +93,8 @@ def show(v):
         return 'fn:' + (v.res or v.deff)
     if isinstance(v, C):
         return 'closure:' + v.deff
+    if isinstance(v, U) and v.tag:
+        return '?' + v.tag
     return '?'
 
 
@@ -126,18 +135,25 @@ def vi_of_discr(facts, adt, d):
     return d
 
 
-def get_child(v, key):
+def get_child(v, key, name=None):
     if isinstance(v, U):
         for k, c in v.ch:
             if k == key:
                 return c
+        if v.tag is not None:
+            if key == '*':
+                return U((), v.tag)          # deref keeps the origin
+            if key[0] == 'f':
+                return U((), '%s.%s' % (v.tag, name if name else key[1]))
+            if key[0] == 'd':
+                return U((), v.tag)
         return TOP
     return TOP
 
 
 def set_child(v, key, new):
     ch = tuple((k, c) for k, c in v.ch if k != key) + ((key, new),)
-    return U(tuple(sorted(ch, key=lambda kv: repr(kv[0]))))
+    return U(tuple(sorted(ch, key=lambda kv: repr(kv[0]))), v.tag)
 
 
 def read_proj(v, projs):
@@ -163,7 +179,7 @@ def read_proj(v, projs):
             elif isinstance(v, C):
                 v = v.caps[i] if i < len(v.caps) else TOP
             elif isinstance(v, U):
-                v = get_child(v, ('f', i))
+                v = get_child(v, ('f', i), p[2] if len(p) > 2 else None)
             else:
                 v = TOP
         elif p[0] == 'd':
@@ -234,7 +250,7 @@ class Outcome(namedtuple('Outcome', 'ret events obs')):
 
 class Explorer:
     def __init__(self, facts, inline_depth=3, budget=200000, no_inline=(), force_domain=None,
-                 observe=(), models=None, loop_visits=2, inline_only=None):
+                 observe=(), models=None, loop_visits=2, inline_only=None, watch=()):
         self.facts = facts
         self.inline_depth = inline_depth
         self.budget = budget
@@ -245,6 +261,7 @@ class Explorer:
         self.models = models or {}
         self.loop_visits = loop_visits
         self.inline_only = inline_only
+        self.watch = tuple(watch)
         self.memo = {}
         self.cut = False
 
@@ -380,6 +397,9 @@ class Explorer:
                 return I(discr_of(self.facts, v.adt, v.vi))
             return TOP
         if deff in IDENTITY_CALLS or name in IDENTITY_CALLS:
+            if deff in ('core::clone::Clone::clone', 'alloc::borrow::ToOwned::to_owned',
+                        'alloc::string::ToString::to_string') and isinstance(args[0], R):
+                return args[0].v
             return args[0]
         if deff == 'core::convert::From::from':
             ga = fd.get('ga', '')
@@ -419,6 +439,10 @@ class Explorer:
             return TOP
         if deff == 'core::ops::try_trait::FromResidual::from_residual':
             v = strip(args[0])
+            if name.startswith('<core::result::Result<T, F> as core::ops::try_trait::FromResidual<core::result::Result<'):
+                return A('core::result::Result', 1, 'Err', ((0, TOP),))
+            if name.startswith('<core::option::Option<T> as core::ops::try_trait::FromResidual<core::option::Option<'):
+                return A('core::option::Option', 0, 'None', ())
             if isinstance(v, A) and v.name == 'Err':
                 return A('core::result::Result', 1, 'Err', ((0, TOP),))
             if isinstance(v, A) and v.name == 'None':
@@ -691,6 +715,8 @@ class Explorer:
                 who = argops[0]
                 cont(TOP, ev | {('callparam', repr(who[1]) if who[0] in ('c', 'm') else '?')})
                 return
+        if self.watch and any(name.startswith(w) or deff.startswith(w) for w in self.watch):
+            ev = ev | {('callargs', name, tuple(args))}
         m = self.model_call(fd, args, depth)
         if m is not None:
             cont(m, ev | {('call', name)})
